@@ -100,6 +100,13 @@ int parse_instruction_pic18(AsmContext *asm_context, char *instr)
     {
       token_type = tokens_get(asm_context, token, TOKENLEN);
 
+      // tblrd*+ and the like: a few characters at most.
+      if (strlen(instr_case) > 16)
+      {
+        print_error_unexp(asm_context, token);
+        return -1;
+      }
+
       if (IS_TOKEN(token, '*'))
       {
         strcat(instr_case, token);
